@@ -515,6 +515,98 @@ def private_driver() -> Path:
     raise core.HarnessError("Lean driver not available")
 
 
+def child_second_of_two(root: str, cfg_a: dict, cfg_b: dict) -> dict:
+    """In ONE process: a --dry-run preview with cfg_a, then a real run with cfg_b; returns what the SECOND run did (write events, prints, error).
+    (with cfg_a = None: the second run alone — the reference)"""
+    import io
+    import sys
+
+    events, rec = [], [False]
+
+    def hook(ev, args):
+        if not rec[0]:
+            return
+        if ev == "open":
+            pth, mode, flags = args
+            if isinstance(pth, bytes):
+                pth = pth.decode()
+            if isinstance(pth, str) and isinstance(mode, str) and any(c in mode for c in "wax+"):
+                events.append(["open", pth])
+        elif ev in ("os.mkdir", "os.remove", "os.rmdir", "os.rename", "os.replace"):
+            events.append([ev, str(args[0])])
+
+    sys.dont_write_bytecode = True
+    os.chdir(root)
+    sys.path.insert(0, os.path.join(root, "src"))
+    import cdd.compound.exmod_utils as eu
+    from cdd.__main__ import main
+
+    sys.addaudithook(hook)
+    err = None
+    out = {}
+    for cfg, dry, record in ((cfg_a, True, False), (cfg_b, False, True)):
+        if cfg is None:
+            continue
+        buf = io.StringIO()
+        eu.EXMOD_OUT_STREAM = buf
+        rec[0] = record
+        try:
+            main(R.cli_args(cfg, os.path.join(root, cfg["out_rel"]), dry))
+        except SystemExit as e:
+            err = "SystemExit:%s" % (e.code,)
+        except BaseException as e:  # noqa
+            err = type(e).__name__
+        rec[0] = False
+        if record:
+            out = {"events": events, "prints": buf.getvalue().split("\n"), "err": err}
+    return out
+
+
+def run_two(sc):
+    """(second run after a preview in the same process, second run alone) on two copies of the same tree"""
+    res = []
+    for with_preview in (True, False):
+        root = R.new_root()
+        try:
+            R.materialise(root, sc["tree"])
+            r = R.run_forked(child_second_of_two, (root, sc["a"] if with_preview else None, sc["b"]), timeout=240.0)
+            if "events" in r:
+                r = {"events": [[e[0], R.canon(e[1], root)] for e in r["events"]], "prints": [R.canon(x, root) for x in r["prints"]], "err": r["err"]}
+            res.append(r)
+        finally:
+            R.cleanup(root)
+    return res
+
+
+def same_process_stream(chk: core.Check, rng):
+    """exmod called twice in one process (a --dry-run preview of the whole package, then a real run that blacklists part of it): the second call must do exactly what
+    it does alone — what a module contributes is gated by THIS call's lists, not by what an earlier call has seen"""
+    scs = []
+    for i in range(10 if chk.quick else 80):
+        tree = G.gen_tree(rng)
+        cfg = G.gen_config(rng, tree)
+        a = dict(cfg, blacklist=[], whitelist=[], out_rel="out/preview")
+        mods = [m for m in list(tree.get("modules") or []) + list(tree.get("packages") or []) if m != tree["top"]]
+        if not mods:
+            continue
+        b = dict(cfg, blacklist=[rng.choice(mods)], whitelist=[], out_rel="out/o2")
+        scs.append({"tree": tree, "a": a, "b": b})
+    with cf.ThreadPoolExecutor(core.NCPU) as ex:
+        results = list(ex.map(run_two, scs))
+    n = 0
+    for sc, (two, alone) in zip(scs, results):
+        if "events" not in two or "events" not in alone:
+            continue  # a child that did not answer is not a verdict
+        n += 1
+        chk.count(("two-in-one-process", json.dumps([sc["tree"]["files"], sc["a"], sc["b"]], sort_keys=True)), bool(alone["events"]))
+        if two != alone:
+            extra = [e for e in two["events"] if e not in alone["events"]]
+            chk.failure({"kind": "history-dependent-effects", "emit": sc["b"]["emit"][0] if sc["b"]["emit"] else None},
+                        "exmod --blacklist %s after a --dry-run preview in the same process does not do what it does alone: e.g. extra effects %s" % (sc["b"]["blacklist"], extra[:3]),
+                        {"fn": "two", "scenario": sc, "after_preview": two, "alone": alone})
+    chk.coverage["two_calls_in_one_process"] = n
+
+
 def evaluate(chk: core.Check, scenarios: list, label: str):
     """run scenarios on the real code (parallel), the model on the same inputs, compare, apply the oracle"""
     with cf.ThreadPoolExecutor(core.NCPU) as ex:
@@ -645,6 +737,7 @@ def run(chk: core.Check) -> int:
         chk.coverage["fixed_corner_scenarios"] = len(cor)
         n1, d1 = evaluate(chk, scenarios, "generated stream")
         n2, d2 = evaluate(chk, directed, "directed stream")
+        same_process_stream(chk, rng)
         n1, d1 = n1 + n0, d1 + d0
         chk.coverage["real_runs"] = n1 + n2
         chk.coverage["real_run_seconds"] = round(time.time() - t0, 1)
